@@ -739,11 +739,17 @@ def toPeriod (s : String) : Option Period :=
   | some (.mid n d) => if n < periodBounds.1 * d ∨ n > periodBounds.2 * d then none else some (.val n d)
   | _ => none
 
+/-- every conversion succeeds, or the first failure (`ValueError`) propagates -/
+def optAll {α} : List (Option α) → Option (List α)
+  | [] => some []
+  | none :: _ => none
+  | some a :: t => match optAll t with | some r => some (a :: r) | none => none
+
 /-- `SupvisorsOptions.to_periods` -/
 def toPeriods (s : String) : Option (List Period) :=
   let items := listOfStrings s
   if items.length == 0 ∨ items.length > maxPeriods then none
-  else (items.mapM toPeriod).map (pySort Period.lt)
+  else (optAll (items.map toPeriod)).map (pySort Period.lt)
 
 /-- `SupvisorsOptions.to_integer` and the like: `integer()` then an inclusive range -/
 def toRanged (lo hi : Int) (s : String) : Option Int :=
@@ -768,7 +774,7 @@ def toStatisticsType (s : String) : Option (Bool × Bool) :=
     let conv (x : String) : Option String :=
       if statNames.contains (upper x) then some (upper x)
       else (svBoolean x).map (fun b => if b then "ALL" else "OFF")
-    (items.mapM conv).map (fun l => (l.contains "ALL" || l.contains "HOST", l.contains "ALL" || l.contains "PROCESS"))
+    (optAll (items.map conv)).map (fun l => (l.contains "ALL" || l.contains "HOST", l.contains "ALL" || l.contains "PROCESS"))
 
 /-- `supervisor.datatypes.byte_size` -/
 def byteSize (s : String) : Option Int :=
